@@ -46,7 +46,7 @@ BOUNDS = {
               "kill": "1 builder x every point x {1 fresh loader; 2 fresh loaders, <=1 preemption}; "
                       "2 concurrent loaders, each killed at every point of the 0-preemption schedules, then 1 fresh loader"},
     "thorough": {"schedules": "2 processes: unbounded preemptions; 3 processes: bound 2; 4 processes: bound 1; 16 processes: bound 0 + single preemptions",
-                 "kill": "as quick + 2 concurrent loaders x every victim point x <=2 preemptions; second model (cylinder)"},
+                 "kill": "as quick + 2 concurrent loaders x every victim point x <=2 preemptions; second model: the product sphere@hardsphere (two libraries built in sequence), 2 processes <= 1 preemption + kill points"},
 }
 CASE_TIMEOUT = 300
 Q = [0.01, 0.1, 0.3]
@@ -79,7 +79,7 @@ def _body_factory(model_name, dll_dir, tmp_dir):
         info = STATE["info"][model_name]
         model = core.build_model(info, dtype="double", platform="dll")
         kernel = model.make_kernel([np.array(Q)])
-        pars = dict(PARS) if model_name == "sphere" else {"scale": 2.0, "background": 0.125}
+        pars = dict(PARS) if model_name == "sphere" else {"scale": 2.0, "background": 0.125, "radius_pd": 0.1, "radius_pd_n": 5}
         res = call_kernel(kernel, pars)
         return [float(v).hex() for v in res]
     return body
@@ -94,12 +94,14 @@ def _reference(args):
     os.environ.pop("VERIF_SCHED_SOCK", None)
     vals = _body_factory(model_name, dll_dir, tmp_dir)(0)
     libs = sorted(f for f in os.listdir(dll_dir) if f.endswith(".so"))
-    if len(libs) != 1:
+    if len(libs) != len(model_name.replace("@", "+").replace("*", "+").split("+")):
         raise HarnessError("reference build left %r" % libs)
-    with open(os.path.join(dll_dir, libs[0]), "rb") as fh:
-        data = fh.read()
-    return {"values": vals, "name": libs[0], "sha": hashlib.sha1(data).hexdigest(), "size": len(data),
-            "tmp_left": os.listdir(tmp_dir)}
+    out = {}
+    for lib in libs:
+        with open(os.path.join(dll_dir, lib), "rb") as fh:
+            data = fh.read()
+        out[lib] = [hashlib.sha1(data).hexdigest(), len(data)]
+    return {"values": vals, "libs": out, "tmp_left": os.listdir(tmp_dir)}
 
 
 def setup(ctx):
@@ -107,10 +109,12 @@ def setup(ctx):
     from sasmodels import core, kerneldll, generate  # noqa - imported AFTER CC is set
     if "scripted_cc" not in " ".join(kerneldll.compiler):
         raise HarnessError("kerneldll did not pick up the scripted compiler: %r" % (kerneldll.compiler,))
-    models = ["sphere"] if ctx.quick else ["sphere", "cylinder"]
+    models = ["sphere"] if ctx.quick else ["sphere", "sphere@hardsphere"]
     STATE["info"] = {m: core.load_model_info(m) for m in models}
     for m in models:     # warm the source/template caches in the zygote
-        generate.make_source(STATE["info"][m])
+        info = STATE["info"][m]
+        for part in (info.composition[1] if info.composition else [info]):
+            generate.make_source(part)
     STATE["models"] = models
     refs = pool_map(ctx, _reference, [(m, ctx.scratch) for m in models], timeout=300)
     STATE["ref"] = {}
@@ -129,11 +133,12 @@ def _scan(dll_dir, ref):
         return bad, leftovers
     for f in sorted(os.listdir(dll_dir)):
         p = os.path.join(dll_dir, f)
-        if f == ref["name"]:
+        if f in ref["libs"]:
+            sha, size = ref["libs"][f]
             with open(p, "rb") as fh:
                 data = fh.read()
-            if len(data) != ref["size"] or hashlib.sha1(data).hexdigest() != ref["sha"]:
-                bad.append("%s has %d bytes (complete library: %d bytes)" % (f, len(data), ref["size"]))
+            if len(data) != size or hashlib.sha1(data).hexdigest() != sha:
+                bad.append("%s has %d bytes (complete library: %d bytes)" % (f, len(data), size))
         else:
             leftovers.append(f)
     return bad, leftovers
@@ -289,7 +294,7 @@ def explore(ctx):
     for model in STATE["models"]:
         fams = [(2, 2), (3, 1)] if quick else [(2, 99), (3, 2), (4, 1), (16, 0)]
         if model != "sphere":
-            fams = [(2, 2)]
+            fams = [(2, 1)]
         for n, bound in fams:
             _explore_tree(ctx, report, lambda p, n=n, model=model: {"model": model, "n1": n, "prefix1": p, "kill": None, "n2": 0},
                           bound, "sched:%s:n%d:b%d" % (model, n, bound), cap=None if n < 16 else 400)
